@@ -1,8 +1,150 @@
-(** C15 — printing and re-parsing is the identity. *)
-From Coq Require Import List NArith ZArith.
+(** C15 — Printing and re-parsing a program is the identity, at every stage.
+    This file only pins statements and prints their assumptions.
+
+    Text = list of Unicode scalar values.  [fmt_f64] / [parse_f64] stand for Rust's
+    `f64::to_string` / `str::parse::<f64>`; the three hypotheses about them are tested on the real
+    functions by harness/src/bin/h_syntax (float_hypothesis) and named in the trusted base. *)
+From Coq Require Import List NArith ZArith Bool String.
 Import ListNotations.
-Require Import Verif.Base.Cases Verif.Syntax.Sexp Verif.Syntax.Ast.
+Require Import Verif.Base.Cases Verif.Syntax.Sexp Verif.Syntax.SexpProofs Verif.Syntax.Ast Verif.Syntax.AstProofs.
+Local Open Scope N_scope.
+
+(** the escape lemma at the heart: lexing the escaped form of ANY sequence of characters
+    (quotes, backslashes, newlines, any code point) gives it back *)
+Theorem c15_string_escape_roundtrip : forall (s rest : str),
+  lex_string false (escape s ++ c_quote :: rest) = POk (s, rest).
+Proof. exact lex_string_escape. Qed.
+Print Assumptions c15_string_escape_roundtrip.
+
+(** i64: every value in range prints to a text that `parse::<i64>` maps back to it *)
+Theorem c15_int_roundtrip : forall z, in_i64 z = true -> parse_i64 (print_int z) = Some z.
+Proof. exact parse_print_int. Qed.
+Print Assumptions c15_int_roundtrip.
+
+(** every literal the lexer can produce (Int in the i64 range, Bool, String of any characters,
+    NaN, +-inf, finite floats relative to the oracle) prints to a text that reads back as itself *)
+Theorem c15_lit_roundtrip :
+  forall (fmt_f64 : Z -> str) (parse_f64 : str -> option fl),
+    (forall x, finite_bits x -> numchars (fmt_f64 x)) ->
+    (forall x, finite_bits x -> fmt_f64 x <> []) ->
+    (forall x, finite_bits x -> parse_f64 (print_float fmt_f64 (FFin x)) = Some (FFin x)) ->
+    forall l, wf_lit l -> read_sexp parse_f64 (print_lit fmt_f64 l) = POk (SLit l, []).
+Proof. exact lit_roundtrip. Qed.
+Print Assumptions c15_lit_roundtrip.
+
+(** ALL s-expressions: a well-formed tree prints to a text that reads back as the same tree *)
+Theorem c15_sexp_roundtrip :
+  forall (fmt_f64 : Z -> str) (parse_f64 : str -> option fl),
+    (forall x, finite_bits x -> numchars (fmt_f64 x)) ->
+    (forall x, finite_bits x -> fmt_f64 x <> []) ->
+    (forall x, finite_bits x -> parse_f64 (print_float fmt_f64 (FFin x)) = Some (FFin x)) ->
+    forall s, wf_sexp parse_f64 s -> read_sexp parse_f64 (print_sexp fmt_f64 s) = POk (s, []).
+Proof. exact sexp_roundtrip. Qed.
+Print Assumptions c15_sexp_roundtrip.
+
+(** ... and under ANY layout (blanks of any kind between items, before the closing parenthesis),
+    followed by anything that starts with a delimiter: what the `Display` impls emit *)
+Theorem c15_layout_roundtrip :
+  forall (fmt_f64 : Z -> str) (parse_f64 : str -> option fl),
+    (forall x, finite_bits x -> numchars (fmt_f64 x)) ->
+    (forall x, finite_bits x -> fmt_f64 x <> []) ->
+    (forall x, finite_bits x -> parse_f64 (print_float fmt_f64 (FFin x)) = Some (FFin x)) ->
+    forall l rest, wf_l parse_f64 l -> follow_ok rest ->
+      read_sexp parse_f64 (text fmt_f64 l ++ rest) = POk (strip l, skip_ws false rest).
+Proof. exact read_sexp_layout. Qed.
+Print Assumptions c15_layout_roundtrip.
+
+(** the reader never exhausts the fuel it supplies itself: its result is a tree or a parse error *)
+Theorem c15_reader_total : forall (parse_f64 : str -> option fl) s, read_sexp parse_f64 s <> PFuel.
+Proof. exact read_sexp_total. Qed.
+Print Assumptions c15_reader_total.
+
+(** [wf_atom] is not vacuous: every atom the lexer itself produces satisfies it *)
+Theorem c15_lexer_atoms_wf : forall (parse_f64 : str -> option fl) s x r a,
+  next_token s = POk (TOther x, r) -> classify parse_f64 x = SAtom a -> wf_atom parse_f64 a.
+Proof. exact lexer_atoms_wf. Qed.
+Print Assumptions c15_lexer_atoms_wf.
+
+(** expressions, facts, actions: print (exact `Display` text) then parse = identity, parser state
+    (wildcard counter) unchanged; [chk] = ensure_no_reserved_symbols *)
+Theorem c15_expr_roundtrip :
+  forall (fmt_f64 : Z -> str) (parse_f64 : str -> option fl),
+    (forall x, finite_bits x -> numchars (fmt_f64 x)) ->
+    (forall x, finite_bits x -> fmt_f64 x <> []) ->
+    (forall x, finite_bits x -> parse_f64 (print_float fmt_f64 (FFin x)) = Some (FFin x)) ->
+    forall chk e n, wf_expr parse_f64 chk e ->
+      parse_expr_str parse_f64 chk (print_expr fmt_f64 e) n = POk (e, n).
+Proof. exact expr_roundtrip. Qed.
+Print Assumptions c15_expr_roundtrip.
+
+Theorem c15_fact_roundtrip :
+  forall (fmt_f64 : Z -> str) (parse_f64 : str -> option fl),
+    (forall x, finite_bits x -> numchars (fmt_f64 x)) ->
+    (forall x, finite_bits x -> fmt_f64 x <> []) ->
+    (forall x, finite_bits x -> parse_f64 (print_float fmt_f64 (FFin x)) = Some (FFin x)) ->
+    (forall s x, parse_f64 s = Some (FFin x) -> has_digit s = true) ->
+    forall chk f n, wf_fact parse_f64 chk f ->
+      parse_fact_str parse_f64 chk (print_fact fmt_f64 f) n = POk (f, n).
+Proof. exact fact_roundtrip. Qed.
+Print Assumptions c15_fact_roundtrip.
+
+(** includes `(panic msg)` for EVERY message (after repo fix 0357906 the message is printed as a
+    string literal; before it, this theorem was false for messages with a quote or a backslash) *)
+Theorem c15_action_roundtrip :
+  forall (fmt_f64 : Z -> str) (parse_f64 : str -> option fl),
+    (forall x, finite_bits x -> numchars (fmt_f64 x)) ->
+    (forall x, finite_bits x -> fmt_f64 x <> []) ->
+    (forall x, finite_bits x -> parse_f64 (print_float fmt_f64 (FFin x)) = Some (FFin x)) ->
+    (forall s x, parse_f64 s = Some (FFin x) -> has_digit s = true) ->
+    forall chk a n, wf_action parse_f64 chk a ->
+      parse_action_str parse_f64 chk (print_action fmt_f64 a) n = POk (a, n).
+Proof. exact action_roundtrip. Qed.
+Print Assumptions c15_action_roundtrip.
+
+(** schedules: re-parsing the printed schedule gives [rewrap s] (bodies of saturate / repeat
+    wrapped in one more `seq`), NOT s: known finding C15-schedule-reparse-adds-seq *)
+Theorem c15_schedule_reparse :
+  forall (fmt_f64 : Z -> str) (parse_f64 : str -> option fl),
+    (forall x, finite_bits x -> numchars (fmt_f64 x)) ->
+    (forall x, finite_bits x -> fmt_f64 x <> []) ->
+    (forall x, finite_bits x -> parse_f64 (print_float fmt_f64 (FFin x)) = Some (FFin x)) ->
+    (forall s x, parse_f64 s = Some (FFin x) -> has_digit s = true) ->
+    forall chk s n, wf_sched parse_f64 chk s ->
+      parse_sched_str parse_f64 chk (print_sched fmt_f64 s) n = POk (rewrap s, n).
+Proof. exact sched_reparse. Qed.
+Print Assumptions c15_schedule_reparse.
+
+Theorem c15_schedule_roundtrip_refuted : exists s, rewrap s <> s.
+Proof. exists (SSaturate (SRun [] None)). discriminate. Qed.
+
+(** the difference disappears when singleton sequences are flattened (it is semantically inert) *)
+Theorem c15_schedule_roundtrip_partial : forall s, flat (rewrap s) = flat s.
+Proof. exact flat_rewrap. Qed.
+Print Assumptions c15_schedule_roundtrip_partial.
+
+(** non-vacuity: concrete well-formed inputs, and a concrete run of the model *)
+Example c15_wf_example : forall parse_f64,
+  (forall s x, parse_f64 s = Some (FFin x) -> has_digit s = true) ->
+  wf_action parse_f64 true
+    (AUnion (ECall (s_ "g") [EVar (s_ "x"); ELit (LInt (-9223372036854775808))]) (ELit (LStr (s_ "a\b")))).
+Proof.
+  intros p H.
+  assert (forall k, tok_ok k -> has_digit k = false -> str_eqb k k_true = false -> str_eqb k k_false = false ->
+                    str_eqb k k_NaN = false -> str_eqb k k_inf = false -> str_eqb k k_ninf = false -> wf_atom p k) as W
+      by (intros; apply word_atom; assumption).
+  assert (wf_atom p (s_ "g")) by (apply W; [repeat split; try discriminate | reflexivity ..]).
+  assert (wf_atom p (s_ "x")) by (apply W; [repeat split; try discriminate | reflexivity ..]).
+  simpl.
+  split; [split; [assumption | split; [split; [assumption | split; [discriminate | intros _; reflexivity]]
+                                      | split; [right; reflexivity | exact I]]]
+         | right; exact I].
+Qed.
 
 Example c15_example :
-  check_case (KLit ([], []) (LStr (s_ "a\b")) [34; 97; 92; 92; 98; 34]%N) = true.
+  check_case (KCmd ([], []) true
+                (CRule (mkRule [APanic [34; 92]] [FEq (EVar (s_ "x")) (ELit (LInt 1))] [34] (s_ "r") Naive true false))
+                (s_ "(rule ((= x 1))" ++ [10] ++ s_ "      ((panic " ++ [34; 92; 34; 92; 92; 34] ++ s_ "))" ++ [10]
+                   ++ s_ "        :ruleset r :name " ++ [34; 92; 34; 34] ++ s_ " :naive :no-decomp)")
+                (POk [CRule (mkRule [APanic [34; 92]] [FEq (EVar (s_ "x")) (ELit (LInt 1))] [34] (s_ "r") Naive true false)]))
+  = true.
 Proof. vm_compute. reflexivity. Qed.
